@@ -194,7 +194,7 @@ try:
         n += 1
         if n < first or n % every != offset % every:
             continue
-        if "--list" in sys.argv:        # dry run: what would be applied (no check runs)
+        if dry:        # dry run: what would be applied (no check runs)
             print(json.dumps({"n": n, "kind": kind, "func": f, "line": getattr(node, "lineno", 0), "before": before,
                               "after": after}), file=out, flush=True)
             continue
